@@ -36,7 +36,7 @@ REQUIRED = ["key_only", "multi_value_with_colons", "value_has_colon", "value_has
             "backslash_without_other_meta", "str_mid_history_then_extradata_edit", "corpus_start",
             "meta_token_on_8192_boundary", "chart_fields_assigned_out_of_order", "first_key_is_a_near_miss_of_VERSION",
             "property_key_is_a_near_miss_of_NOTES", "simfile_with_32_or_more_charts",
-            "chart_notes_beyond_65536_characters_with_a_non_lf_separator"]
+            "chart_notes_beyond_65536_characters_with_a_non_lf_separator", "first_parameter_longer_than_4096_characters"]
 
 
 def anchors():
@@ -73,6 +73,14 @@ def cases(ctx):
         if ctx.mine(bi):
             yield {"kind": "enum", "n0": n0, "n1": min(total, n0 + block)}
     ctx.exhaustive = True
+    if ctx.shard == 0:
+        # the FIRST parameter long enough that an escaped character falls on text offsets 4095, 8191, 16383, 65535 (+-1):
+        # whatever a reader peeks at to detect the format must not cut an escape pair in two
+        for seam in (4096, 8192, 16384, 65536):
+            for d in (-2, -1, 0):
+                for esc in (":", "\\"):
+                    k = seam + d - len("#TITLE:")
+                    yield {"kind": KIND, "start": "empty", "ops": [["set", "TITLE", "x" * k + esc + "tail"], ["set", "ARTIST", "a"]], "pool": []}
     n = ctx.split(2500 if ctx.tier == "quick" else 16 * 25000)
     for i in range(n):
         case, repaired = E.gen_history(ctx.rng, KIND, f"v{ctx.shard}.{i}")
@@ -207,6 +215,9 @@ def check(ctx, case):
     nontrivial = features(ctx, m, case, text)
     if len(m.charts) >= 32:
         ctx.feat("simfile_with_32_or_more_charts")
+    fv = next(iter(m.d.values()), None)
+    if fv and len(fv) > 4000 and text[:1] == "#":
+        ctx.feat("first_parameter_longer_than_4096_characters")
     if any(len(mc.six()[5]) > 65536 and any(ch in mc.six()[5] for ch in "\r\x0c\u2028") for mc in m.charts):
         ctx.feat("chart_notes_beyond_65536_characters_with_a_non_lf_separator")
     ctx.begin(case, nontrivial=nontrivial, sample={"start": case["start"], "n_ops": len(case["ops"]), "ops": case["ops"][:6], "text": text[:300]})
